@@ -285,6 +285,10 @@ class Scenario:
             return env.cea(2001, host=host, hbh=0x9, e2e=0x9)
         s.nreq += 1
         hbh, e2e = 0x1000 * (s.idx + 1) + s.nreq, 0x2000 * (s.idx + 1) + s.nreq
+        if name == "badlen":
+            # a 20-byte header announcing a message length of 5: the connection can only be closed
+            s.nreq -= 1
+            return rc.enc_header(1, 5, R, env.CMD_DWR, 0, hbh, e2e)
         if name == "dwr":
             d = env.dwr(host=host, hbh=hbh, e2e=e2e)
         elif name == "dwr_e2e0":
